@@ -16,7 +16,12 @@ pub struct Rng {
 /// by Knuth and H. W. Lewis.
 impl Rng {
     pub fn new(seed: u64) -> Self {
-        Rng { seed }
+        // The generator's state lives in [0, MODULUS); reducing the seed up front keeps
+        // `MULTIPLIER * seed` from overflowing for large seeds and yields the same
+        // sequence, since MODULUS divides 2^64.
+        Rng {
+            seed: seed % MODULUS,
+        }
     }
 
     pub fn random(&mut self) -> f64 {
